@@ -7,6 +7,7 @@ wrong JSON type, is answered with `{"unsupported": …}` (outside the modelled s
 -/
 import Rpft.Drv.Json
 import Rpft.Document
+import Rpft.DocumentWitness
 namespace Rpft.Drv
 open Lean Rpft Rpft.Document
 
@@ -346,6 +347,9 @@ def errName : Err → String
   | .undefinedFlow => "undefinedFlow"
 
 def handleDocument (op : String) (j : Json) : Except String Json := do
+  if op == "doc.witnesses" then
+    return Json.arr (Witness.all.map (fun (n, d) => Json.mkObj [("name", Json.str n), ("doc", encDoc d),
+      ("lossless", Json.bool (lossless d))])).toArray
   let dj ← j.getObjVal? "d"
   match decDoc dj with
   | .error e => pure (Json.mkObj [("unsupported", Json.str e)])
